@@ -43,6 +43,10 @@ func (eval Evaluator) ApplyEvaluationKey(ctIn *Ciphertext, evk *EvaluationKey, o
 	level := utils.Min(ctIn.Level(), opOut.Level())
 	ringQ := eval.params.RingQ().AtLevel(level)
 
+	// The result lives at the common level: a receiver allocated at a higher level must not keep
+	// its old level (and stale residues), as in Relinearize and Automorphism.
+	opOut.Resize(opOut.Degree(), level)
+
 	NIn := ctIn.Value[0].N()
 	NOut := opOut.Value[0].N()
 
